@@ -17,7 +17,7 @@ git -C $WT checkout -q -- .
 git -C $WT apply $D/patch.diff || exit 3
 OUT=/tmp/seedout-$$; mkdir -p $OUT
 for c in "$@"; do
-  out=$(cd /verif && VERIF_REPO=$WT VERIF_OUT_DIR=$OUT ./check $c --tier ${TIER:-quick} 2>&1); rc=$?
+  out=$(cd ${VDIR:-/verif} && VERIF_REPO=$WT VERIF_OUT_DIR=$OUT ./check $c --tier ${TIER:-quick} 2>&1); rc=$?
   echo "check $c exit=$rc :: $(echo "$out" | grep -E '^(VIOLATION|KNOWN|HARNESS|RESULT)' | head -4 | tr '\n' '|')"
   echo "$out" | grep -E 'fingerprint' | head -3
 done
